@@ -247,3 +247,54 @@ func SM4GCMSeal(key, iv, plaintext, aad []byte) (ct, tag []byte, err error) {
 	out := g.Seal(nil, iv, plaintext, aad)
 	return out[:len(plaintext)], out[len(plaintext):], nil
 }
+
+// ---- GF(2^128) helpers (GCM bit order), used only to construct IVs with a chosen pre-counter block ----
+
+func gf128Mul(x, y [16]byte) [16]byte {
+	var z [16]byte
+	v := x
+	for i := 0; i < 128; i++ {
+		if y[i/8]&(0x80>>uint(i%8)) != 0 {
+			for j := range z {
+				z[j] ^= v[j]
+			}
+		}
+		lsb := v[15] & 1
+		for j := 15; j > 0; j-- {
+			v[j] = v[j]>>1 | v[j-1]<<7
+		}
+		v[0] >>= 1
+		if lsb != 0 {
+			v[0] ^= 0xe1
+		}
+	}
+	return z
+}
+
+func gf128Inv(a [16]byte) [16]byte {
+	// a^(2^128-2) = prod_{i=1..127} a^(2^i)
+	var r [16]byte
+	r[0] = 0x80 // the element 1
+	s := a
+	for i := 1; i < 128; i++ {
+		s = gf128Mul(s, s)
+		r = gf128Mul(r, s)
+	}
+	return r
+}
+
+// GCMIV16ForJ0 returns the 16-byte IV for which GCM's pre-counter block J0 (SP 800-38D §7.1, the
+// non-96-bit path: J0 = GHASH_H(IV ‖ 0^64 ‖ [128]_64)) equals j0 under the given key.
+func GCMIV16ForJ0(key []byte, j0 [16]byte) []byte {
+	var h [16]byte
+	copy(h[:], SM4EncryptBlock(key, make([]byte, 16), nil))
+	hinv := gf128Inv(h)
+	var l [16]byte
+	l[15] = 128 // len(IV) in bits, 64-bit big endian in the low half
+	t := gf128Mul(j0, hinv)
+	for i := range t {
+		t[i] ^= l[i]
+	}
+	iv := gf128Mul(t, hinv)
+	return iv[:]
+}
